@@ -32,6 +32,7 @@ RULE += (' Also: text / bytes pieces summed over a long stream.')
 RULE += (' Also: partially ordered / NaN keys in nlargest and nsmallest.')
 RULE += (' Also: the consumer calling other tools once per item with closures / partials bound to that item.')
 RULE += (' Also: long lazily produced streams of awaitable jobs (coroutines, future-like objects) bound to their record, through await_each and any_iter.')
+RULE += (' Also: compress with a long lazily produced synchronous selector stream.')
 ASSUMPTIONS = ["the bound's constant was read off the unchanged tree with slack; a buffering tool grows linearly and "
                "crosses it within a few steps, so the verdict does not depend on the exact constant"]
 EXHAUSTIVE = {"quick": False, "thorough": False}
@@ -228,6 +229,9 @@ def _tools():
     T["chain_from_iterable_pages"] = (1, 10, lambda S, n: A.chain.from_iterable(S[0]), "iter", {"pages": "class"})
     T["chain_from_iterable_sync_pages"] = (1, 10, lambda S, n: A.chain.from_iterable(S[0]), "iter", {"pages": "sync"})
     T["compress"] = (1, 0, lambda S, n: A.compress(S[0], [i % 2 for i in range(n)]), "iter", {})
+    # the selectors are a long, lazily produced SYNCHRONOUS stream of records of their own (and the data is one)
+    T["compress_lazy_sync_selectors"] = (1, 1, None, "compress_lazy", {"data": "async"})
+    T["compress_lazy_sync_both"] = (0, 2, None, "compress_lazy", {"data": "sync"})
     T["dropwhile"] = (1, 0, lambda S, n: A.dropwhile(lambda x: x.key < n // 2, S[0]), "iter", {})
     T["takewhile"] = (1, 0, lambda S, n: A.takewhile(always, S[0]), "iter", {})
     T["filterfalse"] = (1, 0, lambda S, n: A.filterfalse(lambda x: x.key % 3 == 0, S[0]), "iter", {})
@@ -403,6 +407,20 @@ def run_tool(case, stats):
                     del item
                     census.sample("after group item")
                 del group
+        elif kind == "compress_lazy":
+            def records(tag, truth):
+                for i in range(n):
+                    record = W(i, truth=truth(i))
+                    census.track(record)
+                    yield record
+                    del record
+
+            selectors = records("sel", lambda i: i % 2 == 0)
+            data = streams[0] if opt["data"] == "async" else records("data", lambda i: True)
+            async for item in A.compress(data, selectors):
+                produced["n"] += 1
+                del item
+                census.sample("after a selected item")
         elif kind == "jobs":
             class Job:
                 """A future-like job that keeps its record (and hands it out as its result)."""
